@@ -20,6 +20,7 @@ const queueSize = 100
 // Watcher transaction store watcher
 type Watcher struct {
 	transactions transactionstore.Store
+	proposals    proposalstore.Store
 	cancel       context.CancelFunc
 	mu           sync.Mutex
 }
@@ -44,6 +45,16 @@ func (w *Watcher) Start(ch chan<- controller.ID) error {
 	go func() {
 		for event := range eventCh {
 			ch <- controller.NewID(event.Transaction.Index)
+			// The transactions that follow a SERIALIZABLE transaction on its targets wait for each of its
+			// phases as a whole: nothing of their own changes when it moves on, so wake them here.
+			if w.proposals != nil && event.Transaction.Isolation == configapi.TransactionStrategy_SERIALIZABLE {
+				for _, proposalID := range event.Transaction.Status.Proposals {
+					proposal, err := w.proposals.Get(ctx, proposalID)
+					if err == nil && proposal.Status.NextIndex != 0 {
+						ch <- controller.NewID(proposal.Status.NextIndex)
+					}
+				}
+			}
 		}
 	}()
 	return nil
